@@ -52,7 +52,7 @@ theorem WorldOkGen.with_rank {w : World} {ctr : Nat} {stale : Option SlabID}
     (H : WorldOkGen D rank stale O w ctr) {rank' : SlabID → Nat} (hr : CRank rank' w) :
     WorldOkGen D rank' stale O w ctr :=
   ⟨H.legal, H.ids, H.addr, H.conts, H.slots, H.band, H.unique, H.inlRef, H.mutIdx, H.closure, hr, H.below,
-    H.idxLive⟩
+    H.idxLive, H.hinfoLive⟩
 
 /-! ### the form of an unreferenced container changes -/
 
@@ -91,7 +91,8 @@ theorem step_childform {w w1 : World} {ctr : Nat} {v : SlabID} {c c1 : Cont}
   refine ⟨by rw [hT]; exact H.legal, ?_, ?_, ?_, ?_, ?_, hS.uniqueRef H.unique, ?_, ?_,
     hS.closureOk H.closure (fun x hi hx => by rw [← hh]; exact hx), hS.cRank H.rank,
     hS.refsBelow H.below (Nat.le_refl _),
-    fun q x i hi => by rw [hidx] at hi; rw [hS.isSome]; exact H.idxLive q x i hi⟩
+    hS.idxLive H.idxLive (fun q x i hi => by rw [hidx] at hi; exact hi),
+    hS.hinfoLive H.hinfoLive (fun x hi hx => by rw [← hh]; exact hx)⟩
   · intro z cz hz
     by_cases hzv : z = v
     · subst hzv; rw [hc1] at hz; cases hz; rw [hsd.vid]; exact H.ids _ _ hv
@@ -136,6 +137,44 @@ theorem step_childform {w w1 : World} {ctr : Nat} {v : SlabID} {c c1 : Cont}
     exact ⟨q, hS.holds hq⟩
   · exact hS.mutIdxOkX (fun p a hp x i hi hO => H.mutIdx p a hp x i hi (fun h => hO (Or.inl h)))
       (fun q x => by rw [hidx])
+
+/-! ### every other container keeps its signature -/
+
+theorem SigFrame.of_sig {w w' : World} (h : ContsSig w w') (p : SlabID) : SigFrame w w' p := fun z _ => h.sig z
+
+theorem SigFrame.trans {w1 w2 w3 : World} {p : SlabID} (h1 : SigFrame w1 w2 p) (h2 : SigFrame w2 w3 p) :
+    SigFrame w1 w3 p := fun z hz => (h2 z hz).trans (h1 z hz)
+
+theorem SigFrame.of_conts {w w' : World} {p : SlabID} (h : ∀ z, z ≠ p → w'.cont? z = w.cont? z) : SigFrame w w' p :=
+  fun z hz => by rw [h z hz]
+
+theorem sigFrame_setCont (w : World) (p : SlabID) (c : Cont) : SigFrame w (w.setCont p c) p :=
+  SigFrame.of_conts (fun _ hz => cont?_setCont_ne _ _ _ _ hz)
+
+theorem sigFrame_setCont_shift (w : World) (p : SlabID) (c : Cont) (f : Nat → Nat) :
+    SigFrame w ((w.setCont p c).shiftIdx p f) p :=
+  SigFrame.of_conts (fun z hz => by rw [cont?_shiftIdx]; exact cont?_setCont_ne _ _ _ _ hz)
+
+theorem sigFrame_cbArr (w : World) (p : SlabID) (i : Nat) (v : WVal) (q : SlabID) :
+    SigFrame w (w.setCallbackArr p i v) q :=
+  SigFrame.of_conts (fun _ _ => cont?_setCallbackArr _ _ _ _ _)
+
+theorem sigFrame_cbMap (w : World) (p : SlabID) (k : MKey) (v : WVal) (q : SlabID) :
+    SigFrame w (w.setCallbackMap p k v) q :=
+  SigFrame.of_conts (fun _ _ => cont?_setCallbackMap _ _ _ _ _)
+
+/-- a reference that is not in `p` is still there -/
+theorem SigFrame.holds {w w' : World} {p : SlabID} (h : SigFrame w w' p) {q x : SlabID} (hq : q ≠ p)
+    (hh : Holds w q x) : Holds w' q x := by
+  obtain ⟨qc, hqc, hm⟩ := hh
+  have := h q hq
+  rw [hqc] at this
+  cases hc' : w'.cont? q with
+  | none => rw [hc'] at this; cases this
+  | some c' =>
+    rw [hc'] at this
+    simp only [Option.map_some, Option.some.injEq] at this
+    exact ⟨c', hc', by rw [Cont.sig_pays this]; exact hm⟩
 
 /-! ### handles across an update that leaves the ancestors of `p` alone -/
 
